@@ -2,9 +2,13 @@
 // after every prefix of the atomic datastore writes of a boot or production step (crashds.FailAfter: the
 // writes after the cut never reach the datastore, the volatile process is discarded), a FRESH real Manager
 // is booted on the surviving image (possibly killed again during that boot or the following step: nesting
-// depth up to 3), and driven on.  Shutdown: the real SaveCache writes the eight gob cache files (temporary
-// file + rename); a shutdown cut after j files leaves files j.. with their previous content and a partly
-// written temporary file.  A small malformed stream truncates a cache file by hand (not a crash).
+// depth up to 3), and driven on.  Shutdown: the real SaveCache writes the eight gob cache files while the kernel
+// (inotify) records the operations it performs on them (create / write / rename, under which names); a cut
+// shutdown leaves the directory as it is after any number of those operations or INSIDE the write of a file
+// (a strict prefix of its bytes under the name the code was writing to), during the first save into an empty
+// directory as well as during a later one; besides the one cut of the history, EVERY crash point of every real
+// SaveCache call (each operation, each byte) is checked against the real LoadFromDisk (producer.afterSave).
+// A small malformed stream truncates a cache file by hand (not a crash).
 // Go oracle (harness/producer/oracle.go), on the real store after every item: recorded height = state
 // height, no committed block is replaced, heights advance by one, the chain stays valid; at the end a
 // restart must succeed and three well-formed responses must produce a block.
@@ -63,34 +67,60 @@ func gen(_ *rand.Rand, tier string, c int, seed int64) (producer.Cfg, []producer
 	}
 	mode := r.Intn(100)
 	if base%13 == 5 {
-		mode = 13 // the malformed stream is always represented
+		mode = 19 // the malformed stream is always represented
 	}
 	switch {
-	case mode < 12:
-		// crash in the middle of writing the cache files at shutdown: the process dies after j of the eight
-		// files were renamed into place; every later start must succeed
-		h = append(h, producer.Item{T: "stop", Crash: true, K: []int{0, 1, 3, 4, 7, 8}[k]})
-		h = append(h, producer.Item{T: "boot"})
+	case mode < 18:
+		// crash in the middle of writing the cache files at shutdown, at a point of the recorded operations of the real
+		// SaveCache: between two files, after the creation of a file, inside its write (1 byte, some bytes, all but the
+		// last byte), between write and rename; during the FIRST save into an empty directory, or during a later save
+		// (complete files of an earlier shutdown present).  Every later start must succeed.
+		j := []int{0, 0, 1, 2, 3, 4, 7, r.Intn(8)}[r.Intn(8)] // the file, in the order the code as it is writes them
+		later := r.Intn(2) == 0
+		tornBytes := 2 + r.Intn(1000)
+		if later {
+			h = append(h, producer.Item{T: "stop"}, producer.Item{T: "boot"})
+			for i := r.Intn(3); i > 0; i-- {
+				h = append(h, wfStep(r, &cur))
+			}
+		}
+		cut := producer.Item{T: "stop", Crash: true}
+		switch k {
+		case 0:
+			cut.FOps = 3*j + 1
+		case 1:
+			cut.FOps = 3*j + 2
+		case 2:
+			cut.FOps, cut.FBytes = 3*j+2, 1
+		case 3:
+			cut.FOps, cut.FBytes = 3*j+2, tornBytes
+		case 4:
+			cut.FOps, cut.FBytes = 3*j+2, -2
+		default:
+			cut.FOps = 3*j + 3
+		}
+		h = append(h, cut, producer.Item{T: "boot"})
 		for i := 0; i < 2; i++ {
 			h = append(h, wfStep(r, &cur))
 		}
 		if k%2 == 0 { // and once more, cut elsewhere
-			h = append(h, producer.Item{T: "stop", Crash: true, K: r.Intn(9)}, producer.Item{T: "boot"}, wfStep(r, &cur))
+			h = append(h, producer.Item{T: "stop", Crash: true, FOps: 1 + r.Intn(25), FBytes: []int{0, -1, -2, 1 + r.Intn(1000)}[r.Intn(4)]},
+				producer.Item{T: "boot"}, wfStep(r, &cur))
 		}
 		return cfg, h
-	case mode < 16:
+	case mode < 22:
 		// malformed stream, NOT reachable by a crash of the repaired code: a cache file truncated by hand
 		f := r.Intn(8)
 		if k < 3 {
 			h = append(h, producer.Item{T: "stop"}, producer.Item{T: "tamper", TornFile: f, TornLen: []int{0, 1, 7}[k]},
 				producer.Item{T: "boot"}, wfStep(r, &cur))
 		} else {
-			// damaged while the process runs, then a shutdown cut after j files: repaired iff f < j
+			// damaged while the process runs, then a shutdown cut inside the write of file j: repaired iff f < j
 			h = append(h, producer.Item{T: "tamper", TornFile: f, TornLen: k}, producer.Item{T: "stop", Crash: true, K: []int{0, 4, 8}[k-3]},
 				producer.Item{T: "boot"}, wfStep(r, &cur))
 		}
 		return cfg, h
-	case mode < 20:
+	case mode < 26:
 		// clean shutdown, restart, go on
 		h = append(h, producer.Item{T: "stop"}, producer.Item{T: "boot"})
 		for i := 0; i < 2; i++ {
@@ -138,7 +168,7 @@ func gen(_ *rand.Rand, tier string, c int, seed int64) (producer.Cfg, []producer
 }
 
 func TestVerif(t *testing.T) {
-	rule := "groups of 6 cases = one base history (boot, 0..5 (quick) / 0..24 (thorough) well-formed steps: 55% non-empty, 30% empty batches, nil/err, 8% execution errors, non-decreasing timestamps, initial height from {1,1,2,7}) x ALL cut points k=0..5 of the primary crash; 80%: crash inside a production step (10% of chain-less bases: inside the first boot), nesting depth 1..2 (quick) / 1..3 (thorough): the recovery boot or the step after it is cut again at a random point, then restart and 2..4 more steps; 12%: shutdown that dies after j = 0/1/3/4/7/8 of the 8 cache files were renamed (stale temporary file left), restart, steps, half of them cut a second time; 4%: malformed stream (a cache file truncated BY HAND to 0/1/7 bytes, or damaged while running and then a cut shutdown); 4%: clean shutdown and restart; every case ends with the oracle's probe (restart if needed, three well-formed steps); non-trivial = a crash or shutdown item and at least one block committed; distinct = distinct (configuration, history)"
+	rule := "groups of 6 cases = one base history (boot, 0..5 (quick) / 0..24 (thorough) well-formed steps: 55% non-empty, 30% empty batches, nil/err, 8% execution errors, non-decreasing timestamps, initial height from {1,1,2,7}) x ALL cut points k=0..5 of the primary crash; 74%: crash inside a production step (10% of chain-less bases: inside the first boot), nesting depth 1..2 (quick) / 1..3 (thorough): the recovery boot or the step after it is cut again at a random point, then restart and 2..4 more steps; 18%: shutdown cut at a point of the file operations the real SaveCache performed (recorded by inotify): for a file j the 6 cases = between two files / after the creation of the file / inside its write with 1 byte, some bytes, all but the last byte written / between write and rename; half of the bases during the FIRST save into an empty directory, half during a later save; restart, steps, half of them cut a second time at a random operation or byte; 4%: malformed stream (a cache file truncated BY HAND to 0/1/7 bytes, or damaged while running and then a cut shutdown); 4%: clean shutdown and restart; in every case EVERY crash point of every real SaveCache call (after each file operation, inside each write after each byte) is checked against the real LoadFromDisk; every case ends with the oracle's probe (restart if needed, three well-formed steps); non-trivial = a crash or shutdown item and at least one block committed; distinct = distinct (configuration, history)"
 	producer.Main(t, "C04", gen, rule, func(cfg producer.Cfg, h []producer.Item, obs []producer.Obs) bool {
 		crash, commits := 0, 0
 		for i, it := range h {
